@@ -1,11 +1,6 @@
 package main
 
 func init() {
-	const note = "Trusted: go/types, go/ssa and VTA of x/tools v0.50.0, the Go 1.26.8 front end, and " +
-		"the hand-confirmed rule tables (which callee is the guard, which field is the source, the " +
-		"specification tables). Third-party/stdlib callees are atoms with their documented meaning. " +
-		"A structural necessary condition is decided on every CFG path of the named functions; " +
-		"the behavioural property in full is not proved."
 	setClaim("C01", claim{
 		Text: "Structural necessary condition, decided on all CFG paths: process() cannot return " +
 			"pForward without a checked hop-expiry test and a checked 6-byte constant-time MAC " +
@@ -13,7 +8,7 @@ func init() {
 			"(processPkt→process, runProcessor sends only on pForward); failure exits carry the " +
 			"documented SCMP code/pointer; MACInput byte layout. Not decided: numeric MAC " +
 			"correctness, wall-clock expiry behaviour.",
-		Note: note, Technique: "static analysis: guard dominance by pass-edge removal on go/ssa CFG, " +
+		Note: claimNote, Technique: "static analysis: guard dominance by pass-edge removal on go/ssa CFG, " +
 			"symbolic operand pairing, byte-layout extraction", Ref: "DESIGN.md §4 C01"})
 
 	notApplicable["C02"] = "End-to-end acceptance of combinator-built paths by every router depends on concrete MACs, interface numbers and topologies (runtime values); no shape of the code implies it. Its structural preconditions are claimed under C01/C04/C22/C23."
